@@ -180,13 +180,11 @@ class LocalModelDirectoryDatabase(TransactionalModelDatabase):
     def _read_lock(self):
         # NOTE: Obtain shared (blocking) lock on the entire database
         path = self.path / FILE_LOCK
-        path.touch(exist_ok=True)
         return path_lock(str(path), shared=True)
 
     def _write_lock(self):
         # NOTE: Obtain exclusive (blocking) lock on the entire database
         path = self.path / FILE_LOCK
-        path.touch(exist_ok=True)
         return path_lock(str(path), shared=False)
 
     @contextmanager
